@@ -205,6 +205,8 @@ type BudgetExceeded struct{}
 
 func (BudgetExceeded) Error() string { return "store-call budget exceeded" }
 
+func (b *Budget) TotalCalls() int { b.mu.Lock(); defer b.mu.Unlock(); return b.Total }
+
 func (b *Budget) Reset() { b.mu.Lock(); b.n = 0; b.mu.Unlock() }
 
 func (b *Budget) Hook(Event) error {
